@@ -25,6 +25,7 @@
 #include <memory>
 #include <mutex>
 #include <thread>
+#include <unistd.h>
 
 #include "seq_common.h"
 
@@ -224,11 +225,23 @@ static void death_callback() {
 struct Err {
   std::string cls; // short, number-free: used as the (deduplicated) violation message
   std::string detail;
+  int sev = 0; // 1: only the returned position is wrong (state itself still comparable), 2: contents/behaviour wrong
   bool bad() const { return !cls.empty(); }
+  bool fatal() const { return sev == 2; }
 };
-static Err mk(const char* cls, const std::string& detail = "") {
-  return Err{cls, detail};
+static Err mk(const char* cls, const std::string& detail = "", int sev = 2) {
+  return Err{cls, detail, sev};
 }
+
+// heap blocks allocated minus freed by this thread (ASan allocator hooks); diagnostic for buffer leaks
+static thread_local long t_heap_live = 0;
+static bool g_trace_heap = false;
+extern "C" void __sanitizer_malloc_hook(const volatile void* p, size_t n) { t_heap_live++; if (g_trace_heap) fprintf(stderr, "  malloc %p %zu\n", (void*)p, n); }
+extern "C" void __sanitizer_free_hook(const volatile void* p) { t_heap_live--; if (g_trace_heap) fprintf(stderr, "  free %p\n", (void*)p); }
+// The default 256 MB quarantine makes every allocation touch fresh pages (5x slower here); 16 MB still
+// spans thousands of evaluations.  ASAN_OPTIONS in the environment overrides these defaults.
+extern "C" const char* __asan_default_options() { return "quarantine_size_mb=16:malloc_context_size=4"; }
+static thread_local std::string t_keybuf;
 
 struct Tier {
   int depth;
@@ -248,6 +261,8 @@ struct ConfigResult {
   std::vector<V> violations;
   uint64_t diag_use_nonlive = 0;
   std::string diag_use_nonlive_first;
+  uint64_t diag_heap = 0; // evaluations after which this thread holds more/fewer heap blocks than before (buffer leak)
+  std::string diag_heap_first;
   uint64_t states = 0, tainted_states = 0;
   std::vector<uint64_t> level_states;
   bool aborted = false;
@@ -289,6 +304,13 @@ struct Runner {
     k.push_back((char)(alloc >> 8));
     k.push_back((char)(dea & 0xff));
     k.push_back((char)(dea >> 8));
+#if DISPENSO_HAS_CACHED_PTRS
+    unsigned stale = 0; // read paths use cachedPtrs_: a stale entry is observable behaviour
+    for (size_t b = 0; b < CV::kMaxBuffers; b++)
+      if (v.cachedPtrs_[b] != v.buffers_[b].load(std::memory_order_relaxed)) stale |= 1u << b;
+    k.push_back((char)(stale & 0xff));
+    k.push_back((char)(stale >> 8));
+#endif
     size_t n = v.size();
     k.push_back((char)(n & 0xff));
     k.push_back((char)(n >> 8));
@@ -298,9 +320,10 @@ struct Runner {
       k.push_back((char)((x >> 8) & 0xff));
     }
   }
-  static std::string key_of(const Env& e, bool tainted) {
-    std::string k;
-    k.reserve(16 + 2 * (e.mv.size() + e.mw.size()));
+  // written into a per-thread buffer with reserved capacity (no heap traffic inside an evaluation)
+  static const std::string& key_of(const Env& e, bool tainted) {
+    std::string& k = t_keybuf;
+    k.clear();
     k.push_back(tainted ? 'T' : 'c');
     key_of(*e.v, k);
     key_of(*e.w, k);
@@ -312,12 +335,12 @@ struct Runner {
   static Err chk_ret(CV& v, const MV& m, It it, size_t expect, const char* what) {
     ssize_t idx = it - v.begin();
     if (idx != (ssize_t)expect)
-      return mk("returned iterator has the wrong index", seq::fmt("%s returned index %zd, std::vector gives %zu", what, idx, expect));
+      return mk("returned iterator has the wrong index", seq::fmt("%s returned index %zd, std::vector gives %zu", what, idx, expect), 1);
     if (!(it == v.begin() + expect))
-      return mk("returned iterator != begin()+index", seq::fmt("%s expected index %zu", what, expect));
+      return mk("returned iterator != begin()+index", seq::fmt("%s expected index %zu", what, expect), 1);
     if (expect < m.size() && expect < v.size()) {
       if ((*it).v != m[expect].v)
-        return mk("returned iterator refers to the wrong element", seq::fmt("%s: *it=%d model %d at %zu", what, (*it).v, m[expect].v, expect));
+        return mk("returned iterator refers to the wrong element", seq::fmt("%s: *it=%d model %d at %zu", what, (*it).v, m[expect].v, expect), 1);
     }
     return {};
   }
@@ -808,13 +831,38 @@ struct Runner {
 
   // ---- one evaluation: replay history, apply op with full checks ---------------------------
   struct Outcome {
-    Err content; // contents / positions / iteration / divergence
+    Err pos; // the operation returned a wrong position (state still comparable)
+    Err content; // contents / iteration / divergence: the history is not extended
     Err life; // lifetime
     std::string key;
     size_t sv = 0, sw = 0, fv = 0, fw = 0;
+    bool heap_unbalanced = false;
   };
 
-  Outcome evaluate(const Hist& h, const std::string* expect_key, bool tainted, const Op* op, bool check_every_step) {
+  // always: size + contents through operator[] and through forward iteration
+  static Err light(CV& v, const MV& m, const char* which) {
+    Err r = contents(v, m, which);
+    if (r.bad()) return r;
+    size_t i = 0, n = m.size();
+    auto en = v.end();
+    for (auto it = v.begin(); it != en; ++it, ++i) {
+      if (i >= n) return mk("forward iteration runs past size()", which);
+      if ((*it).v != m[i].v) return mk("forward iteration yields a wrong element", seq::fmt("%s at %zu", which, i));
+    }
+    if (i != n) return mk("forward iteration stops early", which);
+    return {};
+  }
+  static Err all_observers(Env& e) {
+    Err r = deep(*e.v, e.mv, "v");
+    if (!r.bad()) r = deep(*e.w, e.mw, "w");
+    if (!r.bad()) r = compare_ops(*e.v, *e.w, e.mv, e.mw);
+    return r;
+  }
+
+  // `seen`: canonical states whose observers were already checked (the complete observer set runs
+  // once per canonical state, the light one after every evaluation); nullptr = always run all.
+  Outcome evaluate(const Hist& h, const std::string* expect_key, bool tainted, const Op* op, bool check_every_step,
+                   const std::unordered_set<std::string>* seen = nullptr) {
     Outcome out;
     auto& reg = seq::registry();
     reg.reset();
@@ -825,15 +873,23 @@ struct Runner {
       t_slot->has_op.store(1);
     }
     t_slot->tick.fetch_add(1, std::memory_order_relaxed);
+    const long heap0 = t_heap_live;
     {
       Env e;
       for (size_t i = 0; i < h.size() && !out.content.bad(); i++) {
         Err r = apply(e, h[i]);
-        if (replay_verbose) printf("  step %zu %-28s -> v.size=%zu w.size=%zu %s %s\n", i, op_text(h[i]).c_str(), e.v->size(), e.w->size(), r.cls.c_str(), r.detail.c_str());
+        if (replay_verbose)
+          printf("  step %zu %-28s -> v.size=%zu w.size=%zu %s %s\n", i, op_text(h[i]).c_str(), e.v->size(), e.w->size(), r.cls.c_str(),
+                 r.detail.c_str());
         if (check_every_step) {
-          if (!r.bad()) r = deep(*e.v, e.mv, "v");
-          if (!r.bad()) r = deep(*e.w, e.mw, "w");
-          if (!r.bad()) r = compare_ops(*e.v, *e.w, e.mv, e.mw);
+          if (r.bad() && !r.fatal()) {
+            if (!out.pos.bad()) {
+              out.pos = r;
+              out.pos.detail += " [at step " + std::to_string(i) + " " + op_text(h[i]) + "]";
+            }
+            r = Err{};
+          }
+          if (!r.bad()) r = all_observers(e);
           if (r.bad()) {
             out.content = r;
             out.content.detail += " [at step " + std::to_string(i) + " " + op_text(h[i]) + "]";
@@ -844,7 +900,7 @@ struct Runner {
             out.life = lifetime_step(e, pre, nullptr);
             if (out.life.bad()) out.life.detail += " [at step " + std::to_string(i) + " " + op_text(h[i]) + "]";
           }
-        } else if (r.bad() && !tainted) {
+        } else if (r.fatal() && !tainted) {
           out.content = mk("replay of a recorded history diverged", r.cls + " " + r.detail);
         }
       }
@@ -856,28 +912,43 @@ struct Runner {
         if (!out.content.bad() && key_of(e, tainted) != *expect_key)
           out.content = mk("replay of a recorded history diverged", "canonical state differs on replay");
       }
+      bool have_key = false;
       if (!out.content.bad() && op) {
         Err r = apply(e, *op);
-        if (!r.bad()) r = deep(*e.v, e.mv, "v");
-        if (!r.bad()) r = deep(*e.w, e.mw, "w");
-        if (!r.bad()) r = compare_ops(*e.v, *e.w, e.mv, e.mw);
+        if (r.bad() && !r.fatal()) {
+          out.pos = r;
+          r = Err{};
+        }
+        if (!r.bad()) r = light(*e.v, e.mv, "v");
+        if (!r.bad()) r = light(*e.w, e.mw, "w");
+        if (!r.bad() && !tainted) out.life = lifetime_step(e, h, op);
+        if (!r.bad()) {
+          key_of(e, tainted || out.life.bad());
+          have_key = true;
+          if (!seen || !seen->count(t_keybuf)) r = all_observers(e);
+        }
         out.content = r;
-        if (!tainted) out.life = lifetime_step(e, h, op);
       }
       if (!out.content.bad()) {
-        out.key = key_of(e, tainted || out.life.bad());
+        if (!have_key) key_of(e, tainted || out.life.bad());
         out.sv = e.mv.size();
         out.sw = e.mw.size();
         out.fv = e.v->firstBucketLen_;
         out.fw = e.w->firstBucketLen_;
       }
     } // vectors and models destroyed here
+    const long heap1 = t_heap_live;
+    if (!out.content.bad()) out.key = t_keybuf;
     if (!tainted && !out.life.bad() && !out.content.bad()) {
       if (!reg.error.empty() && reg.error != "use of an object that is not live")
         out.life = mk("lifetime error while destroying the vectors", reg.error);
       else if (!reg.live.empty())
         out.life = mk("element objects still live after the vectors were destroyed", seq::fmt("%zu objects", reg.live.size()));
+      if (out.life.bad() && !out.key.empty()) out.key[0] = 'T';
     }
+    // heap blocks: only meaningful when no message strings were built inside the block
+    if (!tainted && !out.content.bad() && !out.pos.bad() && !out.life.bad() && !check_every_step && !replay_verbose && heap1 != heap0)
+      out.heap_unbalanced = true;
     t_slot->hist.store(nullptr);
     return out;
   }
@@ -975,7 +1046,16 @@ struct Runner {
       for (const StateRec& s : cur) {
         alphabet(t, s.sv, s.sw, alpha);
         for (const Op& op : alpha) {
-          Outcome o = evaluate(s.hist, &s.key, s.tainted, &op, false);
+          Outcome o = evaluate(s.hist, &s.key, s.tainted, &op, false, &seen);
+          if (o.heap_unbalanced) {
+            // one-time allocations (stdio, unordered_map rehash...) disappear on a second run
+            Outcome o2 = evaluate(s.hist, &s.key, s.tainted, &op, false, &seen);
+            if (o2.heap_unbalanced) {
+              if (!res.diag_heap && getenv("C32_TRACE_HEAP")) { g_trace_heap = true; evaluate(s.hist, &s.key, s.tainted, &op, false, &seen); g_trace_heap = false; }
+              res.diag_heap++;
+              if (res.diag_heap_first.empty()) res.diag_heap_first = hist_text(s.hist, &op);
+            }
+          }
           res.evaluations++;
           bool crossed = s.crossed || (!o.content.bad() && (o.sv > o.fv || o.sw > o.fw));
           if (crossed) {
@@ -988,6 +1068,7 @@ struct Runner {
               res.samples.push_back("{\"config\":\"" + cfg_text(cfg_id) + "\",\"ops\":\"" + hist_text(s.hist, &op) + "\"}");
           }
           const char* pre = s.tainted ? "(history already contains a lifetime violation) " : "";
+          if (o.pos.bad()) add_violation(std::string(pre) + kKinds[op.k].name + ": " + o.pos.cls, o.pos, s.hist, &op);
           if (o.content.bad()) {
             add_violation(std::string(pre) + kKinds[op.k].name + ": " + o.content.cls, o.content, s.hist, &op);
             continue; // dead end
@@ -1024,8 +1105,12 @@ struct Runner {
       replay_verbose = false;
     }
     int rc = 0;
+    if (o.pos.bad()) {
+      printf("REPLAY violation (returned position): %s -- %s\n", o.pos.cls.c_str(), o.pos.detail.c_str());
+      rc = 1;
+    }
     if (o.content.bad()) {
-      printf("REPLAY violation (contents/positions): %s -- %s\n", o.content.cls.c_str(), o.content.detail.c_str());
+      printf("REPLAY violation (contents/behaviour): %s -- %s\n", o.content.cls.c_str(), o.content.detail.c_str());
       rc = 1;
     }
     if (o.life.bad()) {
@@ -1171,9 +1256,11 @@ int main(int argc, char** argv) {
   std::thread([&] { other_reg = &seq::registry(); }).join();
   size_t nthreads = main_reg != other_reg ? 8 : 1;
 
-  std::vector<int> todo;
+  std::vector<int> todo; // configuration order (merge order)
   for (int i = 0; i < (int)g_cfgs.size(); i++)
     if (only_cfg < 0 || only_cfg == i) todo.push_back(i);
+  std::vector<int> jobs = todo; // execution order: the larger (capacity 4) sub-domains first
+  std::stable_sort(jobs.begin(), jobs.end(), [](int a, int b) { return g_cfgs[a].cap > g_cfgs[b].cap; });
   std::vector<ConfigResult> results(g_cfgs.size());
   std::atomic<size_t> nextjob{0};
   std::atomic<int> done{0};
@@ -1185,10 +1272,12 @@ int main(int argc, char** argv) {
     threads.emplace_back([&, ti] {
       t_slot = &g_slots[ti];
       t_slot->active.store(1);
+      t_keybuf.reserve(1 << 14);
+      seq::registry().live.reserve(1 << 12);
       for (;;) {
         size_t j = nextjob.fetch_add(1);
-        if (j >= todo.size()) break;
-        int id = todo[j];
+        if (j >= jobs.size()) break;
+        int id = jobs[j];
         t_slot->cfg.store(id);
         int rc = 0;
         g_fns[id](id, t, nullptr, &results[id], &rc);
@@ -1202,7 +1291,7 @@ int main(int argc, char** argv) {
     uint64_t last[8] = {0};
     int stuck[8] = {0};
     while (done.load() < (int)nthreads) {
-      std::this_thread::sleep_for(std::chrono::milliseconds(500));
+      std::this_thread::sleep_for(std::chrono::milliseconds(50));
       for (size_t ti = 0; ti < nthreads; ti++) {
         Slot& s = g_slots[ti];
         if (!s.active.load() || !s.hist.load()) {
@@ -1211,7 +1300,7 @@ int main(int argc, char** argv) {
         }
         uint64_t tk = s.tick.load();
         if (tk == last[ti]) {
-          if (++stuck[ti] >= 20) { // 10 s inside one evaluation
+          if (++stuck[ti] >= 200) { // 10 s inside one evaluation
             write_emergency("hang (no progress for 10 s; a spin-wait on an unallocated bucket?)", &s);
             _exit(1);
           }
@@ -1226,8 +1315,8 @@ int main(int argc, char** argv) {
   watchdog.join();
 
   // deterministic merge, configuration order
-  uint64_t diag = 0, states = 0, tainted = 0;
-  std::string diag_first;
+  uint64_t diag = 0, states = 0, tainted = 0, diag_heap = 0;
+  std::string diag_first, diag_heap_first;
   struct MV {
     std::string msg, replay;
     size_t len;
@@ -1240,15 +1329,15 @@ int main(int argc, char** argv) {
     report.evaluations += r.evaluations;
     for (uint64_t h : r.distinct) {
       if (report.distinct.size() < 2000000) {
-        size_t before = report.distinct.size();
         report.distinct.insert(h);
-        if (report.distinct.size() == before) report.distinct_overflow += 0; // hash collision: undercount
       } else
         report.distinct_overflow++; // every (state, op) pair is a distinct history by construction
     }
     for (auto& s : r.samples) report.sample(s);
     diag += r.diag_use_nonlive;
     if (diag_first.empty() && !r.diag_use_nonlive_first.empty()) diag_first = cfg_text(id) + ": " + r.diag_use_nonlive_first;
+    diag_heap += r.diag_heap;
+    if (diag_heap_first.empty() && !r.diag_heap_first.empty()) diag_heap_first = cfg_text(id) + ": " + r.diag_heap_first;
     states += r.states;
     tainted += r.tainted_states;
     for (auto& v : r.violations) {
@@ -1274,22 +1363,25 @@ int main(int argc, char** argv) {
   report.rule =
       "non-trivial = history during which v or w held elements beyond its first bucket (size > firstBucketLen_), i.e. the "
       "sequence crossed a bucket boundary; every (merged state, operation) pair executed is a distinct history";
-  report.domain = seq::fmt(
-      "all operation histories of length <= %d from two default-constructed vectors (v,w) over the alphabet {push_back copy/move, "
-      "emplace_back, pop_back, clear, grow_by(n | n,val | range | ilist), grow_by_generator, grow_to_at_least(n | n,val), "
-      "resize(n | n,val), reserve, shrink_to_fit, erase(pos), erase(first,last), insert(pos, const& | && | n,val | range | ilist | "
-      "alias of v.back()), assign(n,val | range), v=w, w=v, v=move(w), w=move(v), member and free swap, v=v, re-construction of v by "
-      "ctor(default | n,ReserveTag | n | n,val | range | size,range(list iterators) | ilist | copy v | move v | copy w | move w)}; "
-      "size arguments cap2 %s cap4 %s, insert counts cap2 %s cap4 %s, ilist lengths {0,1,2,3,5}, positions = those arguments <= "
-      "size plus size-1 and size; histories reaching the same canonical state (contents of v and w, firstBucketShift_, allocated "
-      "bucket mask, shouldDealloc mask, taint) merged, histories whose last step broke contents/positions not extended, histories "
-      "with a lifetime violation extended with lifetime checks off; %zu configurations = kDefaultCapacity{2,4} x "
-      "kPreferBuffersInline{1,0} x kIteratorPreferSpeed{1,0} x kReallocStrategy{Full,Half,AsNeeded}; element seq::Tracked<int> "
-      "(tag subclass per capacity); merged states %llu (per level in the first configuration %s), of them tainted %llu; "
-      "diagnostic 'copy/assign touching a non-live object' count %llu%s; threads %zu",
-      t.depth, ints(t.args2).c_str(), ints(t.args4).c_str(), ints(t.small2).c_str(), ints(t.small4).c_str(), todo.size(),
-      (unsigned long long)states, levels.c_str(), (unsigned long long)tainted, (unsigned long long)diag,
-      diag_first.empty() ? "" : (" (first: " + diag_first + ")").c_str(), nthreads);
+  report.domain =
+      "all operation histories of length <= " + std::to_string(t.depth) +
+      " from two default-constructed vectors (v,w) over the alphabet {push_back copy/move, emplace_back, pop_back, clear, "
+      "grow_by(n | n,val | range | ilist), grow_by_generator, grow_to_at_least(n | n,val), resize(n | n,val), reserve, "
+      "shrink_to_fit, erase(pos), erase(first,last), insert(pos, const& | && | n,val | range | ilist | alias of v.back()), "
+      "assign(n,val | range), v=w, w=v, v=move(w), w=move(v), member and free swap, v=v, re-construction of v by ctor(default | "
+      "n,ReserveTag | n | n,val | range | size,range(list iterators) | ilist | copy v | move v | copy w | move w)}; size arguments "
+      "cap2 " + ints(t.args2) + " cap4 " + ints(t.args4) + ", insert counts cap2 " + ints(t.small2) + " cap4 " + ints(t.small4) +
+      ", ilist lengths {0,1,2,3,5}, positions = those arguments <= size plus size-1 and size; histories reaching the same "
+      "canonical state (contents of v and w, firstBucketShift_, allocated-bucket mask, shouldDealloc mask, taint) merged; "
+      "histories whose last step broke contents/positions are not extended, histories with a lifetime violation are extended "
+      "with lifetime checks off; " + std::to_string(todo.size()) +
+      " configurations = kDefaultCapacity{2,4} x kPreferBuffersInline{1,0} x kIteratorPreferSpeed{1,0} x "
+      "kReallocStrategy{Full,Half,AsNeeded}; element seq::Tracked<int> (tag subclass per capacity); merged states " +
+      std::to_string(states) + " (per level in the first configuration " + levels + "), of them tainted " + std::to_string(tainted) +
+      "; diagnostic 'copy/assign touching a non-live object' count " + std::to_string(diag) +
+      (diag_first.empty() ? std::string() : " (first: " + diag_first + ")") +
+      "; diagnostic 'heap blocks not balanced over an evaluation (buffer leak)' count " + std::to_string(diag_heap) +
+      (diag_heap_first.empty() ? std::string() : " (first: " + diag_heap_first + ")") + "; threads " + std::to_string(nthreads);
   report.exhaustive = only_cfg < 0;
   return report.finish();
 }
